@@ -116,26 +116,40 @@ PROPS = {
     "C05": {
         "runner": "Run05",
         "theorems": ["C05_accepts_only_derivable", "C05_accepts_every_derivable", "C05_viable_prefixes",
-                     "C05_nullable_exact", "C05_allowed_lexemes_exact"],
+                     "C05_nullable_exact", "C05_allowed_lexemes_exact",
+                     "C05_param_incr_field", "C05_param_incr_other_bits", "C05_param_decr_field", "C05_param_decr_other_bits",
+                     "C05_param_other_field_untouched", "C05_param_condition_dnf_exact"],
         "rule": "random CFGs (empty productions, left/right/mutual recursion, ambiguity) over non-confusable terminals "
                 "(literals with pairwise different first bytes, single-byte classes); every byte string over the grammar's "
                 "alphabet up to length 5 (thorough 7) explored as a DFS through the implementation's Matcher (pruned at "
                 "rejected prefixes, each rejected prefix still judged); complete-string verdicts compared with the "
-                "independent recogniser of coq/CfgSpec.v (fixpoint over spans, no Earley). "
+                "independent recogniser of coq/CfgSpec.v (fixpoint over spans, no Earley). Rule-level x{lo,hi} with spreads up "
+                "to 24 against the naive expansion. Parametric grammars generated from their own syntax tree (bit ranges, "
+                "incr/decr/set_bit/clear_bit/bit_and/bit_or/constants, every documented condition, saturating counters on "
+                "ranges above bit 0): masks and acceptance against an independent evaluator of docs/parametric.md "
+                "(implementation-only), and ParamExpr::eval / ParamCond::eval called directly against coq/Param.v on field "
+                "boundary values. "
                 "distinct = distinct grammar+string set; non-trivial = grammars with at least one accepted string",
         "trusted_base": ["modelled, not verified: parser/src/earley/parser.rs scan / process_agenda / just_push_row, "
                          "grammar.rs nullable computation (as coq/Earley.v)",
                          "the byte-level glue (greedy lexer over non-confusable terminals = unique segmentation) is not proved; "
                          "it is covered by the correspondence with CfgSpec (byte level) and by the engine sessions of C01/C02",
-                         "parametric rules and {m,n} on rules are not in this model (C09 covers repetition)"],
+                         "modelled, not verified: ParamRef / ParamExpr / ParamCond evaluation and ParametricNullableCtx::dnf "
+                         "(coq/Param.v, fields written arithmetically; the variant of dnf for `true` under negation is read from "
+                         "grammar.rs by bin/gen_params.py); the Earley model itself has no parametric rules: predictions filtered by "
+                         "conditions are covered by the implementation-only evaluator",
+                         "{m,n} on rules is not in the Earley model (C09 covers repetition)"],
         "assumptions": ["the front end wraps the start symbol so that it occurs on no right-hand side (wf_grammar); "
                         "checked on the implementation by the accepting-state comparisons"],
         "level_text": "Theorems for every well-formed grammar and every lexeme sequence: the single-pass Earley recogniser accepts "
                       "exactly the derivable sequences (soundness and completeness, incl. nullable symbols and the "
                       "completion-only-for-earlier-rows rule), continues exactly on viable prefixes, and offers the lexer exactly "
                       "the lexemes after some dot. The implementation is compared byte-for-byte with an independent CFG recogniser "
-                      "on exhaustive small strings.",
-        "level_note": "Partial: lexeme level proved; bytes-to-lexemes glue and parametric rules rest on the correspondence check.",
+                      "on exhaustive small strings. Parametric rules: incr / decr act on their own field only (saturating, no carry into "
+                      "neighbouring fields, no wrap-around), and the DNF that combines the conditions for deriving the empty string "
+                      "evaluates like the condition for every parameter value (variant read from the source).",
+        "level_note": "Partial: lexeme level proved; bytes-to-lexemes glue and the interplay of parametric conditions with prediction "
+                      "rest on the correspondence check. Known finding: empty-string conditions cross a parameter-changing call unsubstituted.",
     },
     "C10": {
         "runner": "RunEngine",
